@@ -310,6 +310,12 @@ def run(R):
 
 
 def total_paths(R, rid):
+    pattern_skips(R, rid) if False else None
+    _total_paths(R, rid)
+    pattern_skips(R, rid)
+
+
+def _total_paths(R, rid):
     """every line takes the same path: no exit of ParsingInput::new / TableDefinition::extract bypasses the pattern / column loop"""
     exf = R.need_fn(EXTRACT)
     pin = R.need_fn("sqlgrep::data_model::ParsingInput::new")
@@ -341,3 +347,65 @@ def total_paths(R, rid):
                         "%s can return without matching the line against the table's %s (an input-dependent fast path): such a line yields NULLs "
                         "although a pattern matches it (e.g. the empty line and `(.*)`), i.e. the line never reaches the query"
                         % (fn_.path, what), [fn_.loc(badb)])
+
+
+def pattern_skips(R, rid):
+    """C01.total (second half): inside the loop over the table's patterns every pass applies the pattern to the line, or skips it
+    only on a flag of the table definition that was computed from ALL references of every column"""
+    P = R.prog
+    pin = R.need_fn("sqlgrep::data_model::ParsingInput::new")
+    apps = [c for c in pin.calls if re.search(r"^regex::regex::string::Regex::(captures|split|find|is_match)", short(c.name))]
+    nxts = [c for c in pin.calls if short(c.name).endswith("Iterator>::next") and PR.loop_of(pin, c.bb)]
+    if not apps or not nxts:
+        return
+    lp = None
+    for c in nxts:
+        l_ = PR.loop_of(pin, c.bb)
+        if l_ and all(a.bb in l_[1] for a in apps):
+            lp = (c, l_)
+    if lp is None:
+        return
+    nx, (hdr, body) = lp
+    g = PR.discr_guard(pin, nx, "Some")
+    if g is None:
+        return
+    skipping = hdr in pin.reachable_from(g[1], avoid=set(a.bb for a in apps))
+    if not skipping:
+        R.ok(rid, "ParsingInput::new|every-pattern", "every pass of the pattern loop applies the pattern to the line", nx.loc())
+        return
+    # which guards let a pass skip the application?  They must depend on the table definition only, and that flag must have been
+    # computed from every reference of every column
+    line_args = [a for a in range(1, pin.arg_count + 1) if pin.local_ty(a) in ("&str", "&'a str", "&alloc::string::String")]
+    T, sinks, _ = F.forward_taint(pin, lambda pl: pl.get("l") in line_args)
+    skip_sw = [sw for sw in body if pin.blocks[sw]["term"]["k"] == "switch" and any(a.bb in pin.reachable_from(sw, avoid={hdr}) for a in apps)
+               and hdr in pin.reachable_from(sw, avoid=set(a.bb for a in apps)) and sw != g[0]]
+    if any(sw in sinks for sw in skip_sw):
+        R.violation(rid, "ParsingInput::new|skip-depends-on-line", "a pattern is skipped depending on the text of the line (a fast path): "
+                                                                   "its columns become NULL although the pattern may match", [pin.loc(skip_sw[0])])
+        return
+    # the summary of a column's references: functions of the data model that match on ColumnParsing and read the MultiRegex list
+    partial = []
+    for g_ in P.fns.values():
+        if g_.target != "lib" or not g_.spath.startswith("sqlgrep::data_model::") or g_.kind == "Closure":
+            continue
+        if g_.spath.endswith("ColumnParsing::extract") or g_.spath.endswith("::fmt"):
+            continue
+        for sw in A.enum_switches(g_, "data_model::ColumnParsing"):
+            arms_, _, _ = A.arms(g_, sw)
+            if "MultiRegex" not in arms_:
+                continue
+            reg = arms_["MultiRegex"][1]
+            names = [short(c.name) for c in g_.calls if c.bb in reg]
+            picks = [n for n in names if re.search(r"slice::<impl \[T\]>::(first|last|get|first_mut|last_mut)$|Index<.*>>::index$|Iterator::(nth|last|next)$|Iterator>::next$", n)]
+            walks = [n for n in names if re.search(r"Iterator::(any|all|for_each|fold|map|flat_map|filter|collect|count)$|IntoIterator>::into_iter$|::iter$", n)]
+            if picks and not [n for n in walks if not n.endswith("::iter")]:
+                partial.append((g_, picks[0], sw))
+    if partial:
+        g_, pick, sw = partial[0]
+        R.violation(rid, "ParsingInput::new|skip-on-partial-summary",
+                    "patterns are skipped on a flag of the table definition, and %s summarises a multi-group column by a single reference "
+                    "(%s): a pattern that only later positions of an array / TIMESTAMP column refer to is never applied, so those parts are NULL"
+                    % (g_.path, pick.split("::")[-1]), [g_.loc(sw), pin.loc(skip_sw[0]) if skip_sw else pin.loc()])
+    else:
+        R.ok(rid, "ParsingInput::new|every-referenced-pattern", "patterns are skipped only on a definition-level flag (no partial summary of "
+                                                                "multi-group columns found)", nx.loc())
